@@ -820,10 +820,13 @@ func (p *postHandshake) retransmitPostHandshakeFlight(
 	}
 	p.registerTransmission(flight, result.TrackedRecords, false)
 	if !disableRetransmitBackoff {
-		flight.RetransmitInterval *= 2
-		if flight.RetransmitInterval > 60*time.Second {
-			flight.RetransmitInterval = 60 * time.Second
+		// The cap limits the doubling; it does not shorten an interval that
+		// was configured above it.
+		doubled := flight.RetransmitInterval * 2
+		if doubled > 60*time.Second {
+			doubled = max(60*time.Second, flight.RetransmitInterval)
 		}
+		flight.RetransmitInterval = doubled
 	}
 	flight.NextRetransmit = now.Add(flight.RetransmitInterval)
 
